@@ -319,11 +319,19 @@ Section Ext.
   Definition merge_members (m : objmap) (members : objmap) : objmap :=
     fold_left (fun acc io => or_insert acc (fst io) (snd io)) members m.
 
+  (* pass B (since /repo 61ef95a): a member is inserted only when no object of that NUMBER is present yet,
+     under whatever generation:  objects.range((id.0, 0)..=(id.0, u16::MAX)).next().is_none() *)
+  Definition number_present (m : objmap) (n : N) : bool := existsb (fun io => fst (fst io) =? n) m.
+  Definition add_new_number (m : objmap) (id : oid) (o : obj) : objmap :=
+    if number_present m (fst id) then m else insert m id o.
+  Definition merge_rest (m : objmap) (members : objmap) : objmap :=
+    fold_left (fun acc io => add_new_number acc (fst io) (snd io)) members m.
+
   (* object_streams sorted by entry number (the entries are visited in that order); first the named members of
-     every container, then the others *)
+     every container (or_insert), then the others (one generation per object number) *)
   Definition merge_object_streams (x : xmap) (m : objmap) (ostm : list (N * objmap)) : objmap :=
     let m1 := fold_left (fun acc eo => merge_members acc (filter (fun io => is_named x (fst eo) (fst io)) (snd eo))) ostm m in
-    fold_left (fun acc eo => merge_members acc (filter (fun io => negb (is_named x (fst eo) (fst io))) (snd eo))) ostm m1.
+    fold_left (fun acc eo => merge_rest acc (filter (fun io => negb (is_named x (fst eo) (fst io))) (snd eo))) ostm m1.
 
   (* read_stream_content(object_id); errors are ignored (`let _ =`).  get_stream_length looks the identifier up with
      Document::get_object and get_object_mut finds the stream to change with the same dereferencing: when the
